@@ -4358,3 +4358,55 @@ func classSweep(c *an.Ctx, prop string) {
 	}
 	c.Ok(rule, "class rules over the packages of "+prop, token.NoPos, "instances examined: "+strings.Join(counts, " "))
 }
+
+// sharedSetReplyKeepsRcode is the rule for responses that are re-targeted to
+// another request: (*dns.Msg).SetReply copies ID, opcode, RD/CD and the
+// question from the request and *resets the response code to NOERROR*.  Called
+// on a fresh message that is harmless; called on a message that already is a
+// response (a clone of a cached answer, the answer the rest of the pipeline
+// produced), the code has to be put back afterwards, as the simple cache's
+// fromCacheItem does (msg.Rcode = item.msg.Rcode).  Every SetReply on a
+// non-fresh message must therefore be followed (dominated) by a store to that
+// message's Rcode.  Returns the number of SetReply calls examined.
+func sharedSetReplyKeepsRcode(c *an.Ctx, rule string) (examined int) {
+	for _, fn := range c.AllFns {
+		if fn.Blocks == nil || c.IsTestFile(fn.Pos()) {
+			continue
+		}
+		if pkg := an.FnPkg(fn); pkg != nil && strings.HasSuffix(pkg.Name(), "test") {
+			continue
+		}
+		k := an.FnKey(fn)
+		for _, call := range an.Calls(fn) {
+			if an.CalleeName(call) != "(*github.com/miekg/dns.Msg).SetReply" {
+				continue
+			}
+			examined++
+			c.Analysed(k)
+			recv := call.Common().Args[0]
+			key := k + " keeps the response code across SetReply"
+			if _, fresh := recv.(*ssa.Alloc); fresh {
+				c.Ok(rule, key, call.Pos(), "SetReply on a freshly allocated message")
+				continue
+			}
+			restored := false
+			an.Instrs(fn, func(in ssa.Instruction) {
+				st, ok := in.(*ssa.Store)
+				if !ok {
+					return
+				}
+				typ, field, base, ok := an.FieldOf(st.Addr)
+				if !ok || typ != "github.com/miekg/dns.MsgHdr" || field != "Rcode" {
+					return
+				}
+				// base is &recv.MsgHdr
+				if fa, isFA := base.(*ssa.FieldAddr); isFA && fa.X == recv && an.Dominates(call, st) {
+					restored = true
+				}
+			})
+			c.Check(restored, rule, key, call.Pos(), "the response code is stored again after SetReply",
+				"SetReply is applied to a message that already is a response and its response code is not restored afterwards: an NXDOMAIN, REFUSED or SERVFAIL answer goes out as NOERROR")
+		}
+	}
+	return examined
+}
